@@ -129,6 +129,11 @@ def run_history(target, args):
 NVALS = [-2, -1, 0, 1, 2, 300]
 
 
+def _accum_ok(target, args):
+    accum = args[-1] if target in ("move_dist_lt", "calculate_lm") or len(args) == 5 else 0
+    return not isinstance(accum, int) or 0 <= accum < TWO31
+
+
 def neighbours(args):
     """The argument tuples that differ from `args` in one position, by one unit or by the sign
     (-1 and -2 included for a reason: they are the two small integers with the same hash)."""
@@ -167,8 +172,7 @@ def neighbour_chunk(job):
     for args in items:
         if verdict(target, args, object()) is None:
             continue                        # outside the function's domain: nothing to judge
-        accum = args[-1] if target in ("move_dist_lt", "calculate_lm") or len(args) == 5 else 0
-        if isinstance(accum, int) and not 0 <= accum < TWO31:
+        if not _accum_ok(target, args):
             continue                        # a start accumulator is a value in [0, 2^31)
         for first in neighbours(args):
             for msg in run_neighbour(target, args, first):
@@ -176,6 +180,51 @@ def neighbour_chunk(job):
                                {"kind": "calc_neighbour", "target": target, "args": list(args),
                                 "first": list(first)})
             part.count("calc_neighbour_histories")
+    return part
+
+
+def run_keyword(target, args, form):
+    """The same call made the other ways Python allows: every argument by name, only the last
+    one by name, a trailing "clear" left to its default.  Returns [message]."""
+    import inspect                          # pylint: disable=import-outside-toplevel
+    func = getattr(_lib(), target)
+    names = list(inspect.signature(func).parameters)[:len(args)]
+    if form == "all_named":
+        call_args, call_kwargs = (), dict(zip(names, args))
+    elif form == "last_named":
+        call_args, call_kwargs = tuple(args[:-1]), {names[len(args) - 1]: args[-1]}
+    elif form == "default_clear":
+        if args[-1] != "clear":
+            return []
+        call_args, call_kwargs = tuple(args[:-1]), {}
+    else:
+        raise ValueError(form)
+    shown = ", ".join([repr(a) for a in call_args] + [f"{k}={v!r}" for k, v in call_kwargs.items()])
+    try:
+        got = func(*call_args, **call_kwargs)
+    except Exception as exc:                # pylint: disable=broad-except
+        if verdict(target, args, None) is not None:
+            return [f"{target}({shown}) raised {type(exc).__name__}: {exc}"]
+        return []
+    bad = verdict(target, args, got)
+    return [bad.replace(f"{target}{tuple(args)!r}", f"{target}({shown})")] if bad else []
+
+
+KEYWORD_FORMS = ("all_named", "last_named", "default_clear")
+
+
+def keyword_chunk(job):
+    target, items = job
+    part = core.Part()
+    for args in items:
+        if verdict(target, args, object()) is None or not _accum_ok(target, args):
+            continue
+        for form in KEYWORD_FORMS:
+            for msg in run_keyword(target, args, form):
+                part.violation(f"keyword:{target}:{args}:{form}", msg,
+                               {"kind": "calc_keyword", "target": target, "args": list(args),
+                                "form": form})
+            part.count("calc_keyword_calls")
     return part
 
 
@@ -284,6 +333,14 @@ def explore(ctx, targets):
                  if not (t in ("rate_t3", "max_rate_t3", "move_dist_t3") and a[-1] == "clear")])
             for t in targets for items in core.split(near, 8)]
     part.merge(core.fan_out(ctx, neighbour_chunk, jobs))
+    named = [t for t in tuples()[::5] + [a for v in SPECIAL.values() for a in v]
+             if len(t) == 4 or t[-1] == "clear"]
+    named += [(7, 490123456, 3, 1073741823), (490123456, 0, 20, 1073741823), (3, 7, -45, TWO31 - 1)]
+    jobs = [(t, [a for a in items
+                 if not (t in ("rate_t3", "max_rate_t3") and a[-1] == "clear")
+                 and (len(a) == 5) == (t == "move_dist_t3" and len(a) == 5)])
+            for t in targets for items in core.split(named, 4)]
+    part.merge(core.fan_out(ctx, keyword_chunk, jobs))
     part.merge(explore_fresh(targets))
     return part
 
@@ -292,6 +349,8 @@ def replay(case):
     if case.get("kind") == "calc_fresh":
         crashed, bad = run_fresh(case["target"], [tuple(case["args"])])
         return crashed + [m for _a, m in bad]
+    if case.get("kind") == "calc_keyword":
+        return run_keyword(case["target"], tuple(case["args"]), case["form"])
     if case.get("kind") == "calc_neighbour":
         return run_neighbour(case["target"], tuple(case["args"]), tuple(case["first"]))
     return run_history(case["target"], tuple(case["args"]))
